@@ -63,6 +63,8 @@ pub struct StreamDecryptor<R: BufRead> {
     source: R,
     /// finished reading from source?
     is_source_done: bool,
+    /// set once reading or authenticating has failed; every further read fails
+    errored: bool,
     /// main buffer
     #[debug("{}", hex::encode(buffer))]
     buffer: BytesMut,
@@ -110,6 +112,7 @@ impl<R: BufRead> StreamDecryptor<R> {
             chunk_size_expanded,
             source,
             is_source_done: false,
+            errored: false,
             buffer: BytesMut::with_capacity(2 * (chunk_size_expanded + AEAD_TAG_SIZE)),
             in_buffer_end: 0,
             out_buffer_start: 0,
@@ -155,6 +158,7 @@ impl<R: BufRead> StreamDecryptor<R> {
             chunk_size_expanded,
             source,
             is_source_done: false,
+            errored: false,
             buffer: BytesMut::with_capacity(2 * (chunk_size_expanded + AEAD_TAG_SIZE)),
             in_buffer_end: 0,
             out_buffer_start: 0,
@@ -261,6 +265,19 @@ impl<R: BufRead> StreamDecryptor<R> {
     }
 
     fn fill_inner(&mut self) -> io::Result<()> {
+        if self.errored {
+            return Err(io::Error::other("StreamDecryptor errored"));
+        }
+        let res = self.fill_inner_unchecked();
+        if res.is_err() {
+            // a failed authentication must not turn into a clean end of the stream (or into
+            // more data) for a consumer that calls again
+            self.errored = true;
+        }
+        res
+    }
+
+    fn fill_inner_unchecked(&mut self) -> io::Result<()> {
         if self.out_buffer_remaining() > 0 || self.is_source_done {
             return Ok(());
         }
